@@ -112,6 +112,53 @@ def valid_scens(seed, n, pred=None, cap=400):
 
 
 # ------------------------------------------------------------------------------------------ C08
+
+def _c08_cmp(multi, fresh, p_idx, h_step, row):
+    """first difference between season rows [p_idx, h_step] of `multi` and the first rows of `fresh`"""
+    L = h_step - p_idx + 1
+    bad = None
+    for name, skip in (("flux", (0, 1)), ("storage", (0,)), ("growth", (0, 1))):
+        A = getattr(multi, name)[p_idx:h_step + 1]
+        B = getattr(fresh, name)[0:L]
+        cols = [c for c in range(A.shape[1]) if c not in skip]
+        if B.shape[0] < L:
+            return dict(table=name, reason="fresh run shorter", rows=int(B.shape[0]), need=int(L))
+        neq = ~((A[:, cols] == B[:, cols]) | (np.isnan(A[:, cols]) & np.isnan(B[:, cols])))
+        if neq.any():
+            i, j = np.argwhere(neq)[0]
+            return dict(table=name, day_in_season=int(i), col=int(cols[j]), multi=float(A[i, cols[j]]),
+                        fresh=float(B[i, cols[j]]), n_cells=int(neq.sum()))
+    if fresh.summary:
+        f0 = fresh.summary[0]
+        if not _sum_eq([row[4:]], [f0[4:]]) or f0[3] != h_step - p_idx:
+            bad = dict(table="summary", multi=str(row), fresh=str(f0))
+    return bad
+
+
+def _c08_wt_moved(model, p_idx):
+    try:
+        z = np.asarray(model._param_struct.z_gw, dtype=float)
+        return bool(model._param_struct.water_table == 1 and z[p_idx] != z[0])
+    except Exception:  # noqa: BLE001
+        return False
+
+
+def _c08_fresh_with_thini(sc1, thini):
+    try:
+        from aquacrop import AquaCropModel
+        mdl = AquaCropModel(**S.build_objects(sc1))
+        mdl._initialize()
+        if len(mdl._init_cond.th) != len(thini):
+            return None
+        mdl._init_cond.th = thini.copy()
+        mdl._init_cond.thini = thini.copy()
+        return run_full(model=mdl, reinit=False)
+    except Exception:  # noqa: BLE001
+        return None
+
+
+
+
 def c08(ctx):
     """multi-season run (off-season skipped) vs fresh single-season runs"""
     seed, tier = ctx["seed"], ctx["tier"]
@@ -177,6 +224,11 @@ def c08(ctx):
             sc1 = copy.deepcopy(sc)
             sc1["start"] = cs.planting_dates[k].strftime("%Y/%m/%d")
             sc1["id"] = f"{sc['id']}-fresh{k}"
+            c2 = sc.get("co2") or {}
+            if c2.get("constant") and float(c2.get("current", 0.0)) <= 0.0:
+                # constant_conc with no value given means "the first simulated year's concentration for every
+                # season" (compute_variables): the same *input* for the fresh run is that resolved value
+                sc1["co2"] = dict(c2, current=float(model._param_struct.CO2.current_concentration))
             fresh = run_full(sc1)
             nontriv += 1
             if fresh.error and permitted_rejection(fresh.error):
@@ -188,25 +240,19 @@ def c08(ctx):
             if fresh.error:
                 viols.append(V("C08", "fresh-run-raises-" + fresh.error[0], sc, "fresh single-season run raises", season=int(k), error=fresh.error))
                 continue
-            L = h_step - p_idx + 1
-            bad = None
-            for name, skip in (("flux", (0, 1)), ("storage", (0,)), ("growth", (0, 1))):
-                A = getattr(multi, name)[p_idx:h_step + 1]
-                B = getattr(fresh, name)[0:L]
-                cols = [c for c in range(A.shape[1]) if c not in skip]
-                if B.shape[0] < L:
-                    bad = dict(table=name, reason="fresh run shorter", rows=int(B.shape[0]), need=int(L))
-                    break
-                neq = ~((A[:, cols] == B[:, cols]) | (np.isnan(A[:, cols]) & np.isnan(B[:, cols])))
-                if neq.any():
-                    i, j = np.argwhere(neq)[0]
-                    bad = dict(table=name, day_in_season=int(i), col=int(cols[j]), multi=float(A[i, cols[j]]),
-                               fresh=float(B[i, cols[j]]), n_cells=int(neq.sum()))
-                    break
-            if bad is None and fresh.summary:
-                f0 = fresh.summary[0]
-                if not _sum_eq([row[4:]], [f0[4:]]) or f0[3] != h_step - p_idx:
-                    bad = dict(table="summary", multi=str(row), fresh=str(f0))
+            bad = _c08_cmp(multi, fresh, p_idx, h_step, row)
+            if bad is not None and sc.get("gw") and _c08_wt_moved(model, p_idx):
+                # the configured initial water content is adjusted once, for the water table of the first
+                # simulated day (read_model_initial_conditions); a fresh run adjusts it for its own first day.
+                # Confirm that this is the *only* difference: give the fresh run the multi-season run's
+                # stored initial profile and compare again.
+                fresh2 = _c08_fresh_with_thini(sc1, np.array(model._init_cond.thini, dtype=float))
+                if fresh2 is not None and not fresh2.error and _c08_cmp(multi, fresh2, p_idx, h_step, row) is None:
+                    viols.append(V("C08", "initial-water-adjusted-to-first-day-water-table", sc,
+                                   "initial water content is adjusted to the water table of the first simulated day only; "
+                                   "later seasons restart from it while a fresh run adjusts to its own first day",
+                                   season=int(k), irr_method=m, diff=bad))
+                    continue
             if bad is not None:
                 key = "season-differs-" + bad.get("table", "x") + (f"-col{bad['col']}" if "col" in bad else "")
                 viols.append(V("C08", key, sc, "season k of a multi-season run differs from a fresh single-season run",
